@@ -36,7 +36,7 @@ ASSUMPTIONS = [
     'dataflow detach (and on all nodes at the end of a properly nested history); in non-LIFO interleavings nodes that were '
     'hidden in pragma attachments at detach time are not claimed',
     'contained procedures are part of the compared unit (attach/detach must not touch them)',
-    'synthetic trees never contain empty CASE/WHERE branch bodies (generic Transformer strips them: listed C14 finding)',
+    'listed root causes are excluded by construction only while a probe at start-up shows that they still reproduce (TypeDef + dataflow attach, pragma ending in the word end, Transformer stripping empty CASE/WHERE bodies)',
 ]
 SHARDS = {'quick': 8, 'thorough': 16}
 BUDGET = {'quick': 75, 'thorough': 1200}
@@ -98,51 +98,151 @@ def history():
     return st.one_of(nested_history(), nested_history(), nested_history(), flat_history())
 
 
-def parsed_cases():
-    return st.tuples(pragsrc.unit_source(), history()).map(
-        lambda t: {'dom': 'src', 'unit': t[0]['unit'], 'name': t[0]['name'], 'src': t[0]['src'], 'hist': t[1]})
+def has_op(hist, kind):
+    return f'"op": "{kind}"' in json.dumps(hist)
+
+
+@st.composite
+def parsed_cases(draw, triggers):
+    hist = draw(history())
+    # listed finding: attaching dataflow info raises on every unit that contains a derived-type definition;
+    # while it reproduces, units of histories that attach dataflow info are generated without TypeDef
+    no_typedef = bool(triggers.get('dfa-attach-raises-on-TypeDef')) and has_op(hist, 'dfa')
+    no_bare_end = bool(triggers.get('regions-attach-raises-on-bare-end'))
+    u = draw(pragsrc.unit_source(allow_typedef=not no_typedef, allow_bare_end=not no_bare_end))
+    case = {'dom': 'src', 'unit': u['unit'], 'name': u['name'], 'src': u['src'], 'hist': hist}
+    excluded = []
+    if no_typedef:
+        excluded.append('TypeDef in a unit whose history attaches dataflow info (listed: attach raises RuntimeError)')
+    if no_bare_end:
+        excluded.append('pragma whose last word is "end" (listed: attach_pragma_regions raises IndexError)')
+    if excluded:
+        case['excluded'] = excluded
+    return case
+
+
+_TRIGGERS = None
+
+
+def known_triggers():
+    """
+    which listed root causes still reproduce on this tree (pure function of the tree): decides the exclusion by
+    construction above, so that the feature comes back by itself once loki is fixed
+    """
+    global _TRIGGERS
+    if _TRIGGERS is None:
+        from loki import Module
+        from loki.analyse import dataflow_analysis_attached
+        m = Module.from_source('module c16_probe\n  implicit none\n  type t\n    integer :: k\n  end type t\nend module c16_probe\n')
+        try:
+            with dataflow_analysis_attached(m):
+                pass
+            raised = False
+        except RuntimeError:
+            raised = True
+        from loki.ir import nodes as ir, pragma_utils as pu
+        sec = ir.Section(body=(ir.Pragma(keyword='loki', content='x'), ir.Pragma(keyword='loki', content='end')))
+        try:
+            pu.attach_pragma_regions(sec)
+            bare_end = False
+        except IndexError:
+            bare_end = True
+        from loki.ir import Transformer
+        from loki.expression import symbols as sym
+        mc = ir.MultiConditional(expr=sym.IntLiteral(1), values=((sym.IntLiteral(1),), (sym.IntLiteral(2),)),
+                                 bodies=((), (ir.Comment(text='! c'),)), else_body=())
+        try:
+            strips = len(Transformer({}, inplace=True).visit(ir.Section(body=(mc,))).body[0].bodies) != 2
+        except Exception:  # noqa
+            strips = True
+        _TRIGGERS = {'dfa-attach-raises-on-TypeDef': raised, 'regions-attach-raises-on-bare-end': bare_end,
+                     'transformer-strips-empty-branch-bodies': strips}
+    return _TRIGGERS
 
 
 # ---- synthetic trees ---------------------------------------------------------
 
-TREE_KINDS = ('Section', 'Loop', 'WhileLoop', 'Conditional', 'MultiConditional', 'MaskedStatement', 'Associate')
-PRAGMA_TEXTS = ['x', 'end x', 'y', 'end y', 'x', 'end x', 'some-pragma', 'loop-fusion group(1)', 'X', 'END x', 'end',
-                'remove', 'end remove']
+TREE_KINDS = ('Loop', 'Loop', 'WhileLoop', 'Conditional', 'MultiConditional', 'MaskedStatement', 'Associate')
+PRAGMA_TEXTS = ['x', 'end x', 'y', 'end y', 'some-pragma', 'loop-fusion group(1)', 'X', 'END x', 'remove', 'end remove',
+                'x foo(bar)', 'inline']
+BARE_END = 'end'
 
 
 @st.composite
-def synthetic_cases(draw):
-    tree = draw(tgen.tree_strategy(max_leaves=14, kinds=TREE_KINDS))
-    texts = st.sampled_from(PRAGMA_TEXTS)
+def synthetic_cases(draw, triggers):
+    """
+    irtree/gen.py tree (with equal copies of leaves, loops and conditionals) decorated with source-less pragmas:
+    runs of pragmas before / after every child of every body, planted region pairs, stray region pragmas.
+    Pragmas with the same keyword and text are *equal* nodes (no source), which region matching has to tell apart.
+    """
+    tree = draw(tgen.tree_strategy(max_leaves=10, kinds=TREE_KINDS))
+    vocab = list(PRAGMA_TEXTS)
+    excluded = []
+    if triggers.get('regions-attach-raises-on-bare-end'):
+        excluded.append('pragma whose last word is "end" (listed: attach_pragma_regions raises IndexError)')
+    else:
+        vocab.append(BARE_END)
+    texts = st.sampled_from(vocab)
     kws = st.sampled_from(['loki', 'loki', 'loki', 'acc'])
-    excluded = [0]
-    by_marker = {}
+    counter = [1000]
+    filled = [0]
 
-    def rec(d):
+    def prag(text=None, kw=None):
+        counter[0] += 1
+        return {'k': 'Pragma', 'm': counter[0], 'text': text or draw(texts), 'kw': kw or draw(kws)}
+
+    def run(pct):
+        if draw(st.integers(0, 99)) >= pct:
+            return []
+        return [prag() for _ in range(draw(st.sampled_from([1, 1, 2, 3])))]
+
+    def deco(lst, in_where):
+        if in_where:
+            return lst
+        out = []
+        for c in lst:
+            out += run(35)
+            out.append(c)
+        out += run(30)
+        for _ in range(draw(st.sampled_from([0, 0, 1, 2]))):
+            i = draw(st.integers(0, len(out)))
+            j = draw(st.integers(i, len(out)))
+            mk, kw = draw(st.sampled_from(['x', 'y', 'remove'])), draw(kws)
+            out.insert(j, prag('end ' + mk, kw))
+            out.insert(i, prag(mk, kw))
+        return out
+
+    def rec(d, in_where):
         d.pop('pragma', None)                      # starting state is always detached
-        if d['k'] == 'Pragma':
-            # copies of a node (same marker) stay equal
-            if d['m'] not in by_marker:
-                by_marker[d['m']] = (draw(texts), draw(kws))
-            d['text'], d['kw'] = by_marker[d['m']]
-        for sl, kind in tgen.SLOTS.get(d['k'], ()):
-            if kind == 'N':
-                # empty CASE / WHERE branch bodies are stripped by every Transformer (listed C14 finding)
-                for b in d.get(sl) or []:
-                    if not b:
-                        b.append({'k': 'Assignment', 'm': 900 + excluded[0]})
-                        excluded[0] += 1
+        if d['k'] == 'Section':
+            d['label'] = None
+        if d['k'] == 'Pragma' and 'text' not in d:
+            d['text'], d['kw'] = draw(texts), draw(kws)
         for c in tgen.desc_children(d):
-            rec(c)
-    rec(tree)
-    nspec = draw(st.integers(0, 4))
+            rec(c, in_where or d['k'] == 'MaskedStatement')
+        for sl, kind in tgen.SLOTS.get(d['k'], ()):
+            if kind == 'F':
+                d[sl] = deco(d.get(sl) or [], in_where or d['k'] == 'MaskedStatement')
+            else:
+                new = []
+                for b in d.get(sl) or []:
+                    if not b and triggers.get('transformer-strips-empty-branch-bodies'):
+                        b = [{'k': 'Assignment', 'm': 900 + filled[0]}]
+                        filled[0] += 1
+                    new.append(deco(b, in_where or d['k'] == 'MaskedStatement'))
+                d[sl] = new
+    rec(tree, False)
     spec = []
-    for i in range(nspec):
-        if draw(st.integers(0, 2)) == 0:
-            spec.append({'k': 'Pragma', 'm': 500 + i, 'text': draw(texts), 'kw': draw(kws)})
-        else:
-            spec.append({'k': 'VariableDeclaration', 'm': 500 + i})
-    return {'dom': 'tree', 'spec': spec, 'tree': tree, 'hist': draw(history()), 'filled_empty_branches': excluded[0]}
+    for i in range(draw(st.integers(0, 3))):
+        spec += run(40)
+        spec.append({'k': 'VariableDeclaration', 'm': 500 + i})
+    spec += run(40)
+    case = {'dom': 'tree', 'spec': spec, 'tree': tree, 'hist': draw(history())}
+    if filled[0]:
+        excluded.append('empty CASE/WHERE branch body (listed C14 finding: generic Transformer strips it)')
+    if excluded:
+        case['excluded'] = excluded
+    return case
 
 
 # ---------------------------------------------------------------------------
@@ -245,7 +345,7 @@ def dfa_state(node):
     return bad
 
 
-def attachment_stats(unit):
+def attachment_stats(unit, owners=None):
     """(#standalone pragmas, #pragmas attached as pragma, #attached as pragma_post, #regions) by own walk"""
     from loki.ir import nodes as ir
     standalone = attached = post = regions = 0
@@ -258,9 +358,15 @@ def attachment_stats(unit):
         elif isinstance(obj, ir.Pragma):
             last = path.rsplit('/', 1)[-1]
             if '.pragma_post' in last:
-                post += 1
+                if not last.startswith('PragmaRegion.'):
+                    post += 1
+                    if owners is not None:
+                        owners.add('post-attached-to:' + last.split('.')[0])
             elif '.pragma' in last:
-                attached += 1
+                if not last.startswith('PragmaRegion.'):
+                    attached += 1
+                    if owners is not None:
+                        owners.add('attached-to:' + last.split('.')[0])
             else:
                 standalone += 1
     return standalone, attached, post, regions
@@ -382,6 +488,9 @@ class Runner:
         self.failed = False
         self.checks = 0
         self.stats = {'attached': 0, 'post': 0, 'regions': 0}
+        self.stale = set()
+        self.version = 0
+        self._snap = None
 
     # ---- reporting -----------------------------------------------------------
     def fail(self, sig, detail):
@@ -394,9 +503,17 @@ class Runner:
             raise Abort()          # consequence of an already recorded failure
         self.fail(f'C16:raises:{op["op"]}:{stage}:{exc_bucket(exc)}', f'{stage} of {_opname(op)} raised {exc!r}')
 
+    def snap(self):
+        """snapshot of the current state; reused while no attach/detach happened in between"""
+        if self._snap is None or self._snap[0] != self.version:
+            self._snap = (self.version, Snap(self.unit))
+        return self._snap[1]
+
     def check_same(self, before, op, when):
         self.checks += 1
-        after = Snap(self.unit)
+        after = self.snap()
+        if after is before:
+            return after
         diff = compare(before, after)
         if diff:
             aspect, where, detail = diff
@@ -405,14 +522,16 @@ class Runner:
         return after
 
     def check_dfa_gone(self, op, hidden, when):
+        """stale dataflow info does not change the structure: report per node class and carry on"""
         from loki.ir import Node
         for path, cls, obj in walk(self.unit, '', [], hidden=hidden):
-            if not isinstance(obj, Node):
+            if not isinstance(obj, Node) or cls in self.stale:
                 continue
             bad = dfa_state(obj)
             if bad:
-                self.fail(f'C16:dataflow-info-left-after-detach:{op["op"] if op else "flat"}',
-                          f'{when}: {cls} at {path} still answers {bad} without RuntimeError')
+                self.stale.add(cls)
+                self.ctx.fail(f'C16:dataflow-info-left-after-detach:{cls}', self.case,
+                              f'{when}: {cls} at {path} still answers {bad} without RuntimeError')
 
     # ---- primitive attach / detach (function API) --------------------------------
     def fn_attach(self, op):
@@ -466,7 +585,7 @@ class Runner:
 
     # ---- measuring what an attach did ---------------------------------------------
     def measure(self, op, before_stats):
-        s, a, p, r = attachment_stats(self.unit)
+        s, a, p, r = attachment_stats(self.unit, self.classes if op['op'] == 'pragmas' else None)
         s0, a0, p0, r0 = before_stats
         if op['op'] == 'pragmas':
             got = (a - a0) + (p - p0)
@@ -488,12 +607,21 @@ class Runner:
                 self.classes.add('regions-ctx:some-formed-some-pragmas-left-standalone')
 
     def comparable(self, op):
-        """True if no active outer context of the same mechanism would be detached by this op's exit"""
-        for o in self.active:
-            if o['op'] != op['op']:
-                continue
-            if op['op'] != 'pragmas' or set(o['types']) & set(op['types']):
-                return False
+        """
+        True if neither this context nor any context nested in its body is of the same mechanism as a context
+        that is active further out (documented: leaving a context detaches everything of its kind, also what an
+        outer context attached; then only the outermost round trip restores the tree).
+        """
+        def footprint(o):
+            if o['op'] == 'query':
+                return
+            yield o
+            for c in o['body']:
+                yield from footprint(c)
+        for inner in footprint(op):
+            for outer in self.active:
+                if outer['op'] == inner['op'] and (inner['op'] != 'pragmas' or set(outer['types']) & set(inner['types'])):
+                    return False
         return True
 
     def query(self):
@@ -522,7 +650,7 @@ class Runner:
 
     def run_ctx(self, op, depth):
         cmp_ok = self.comparable(op)
-        before = Snap(self.unit) if cmp_ok else None
+        before = self.snap() if cmp_ok else None
         stats0 = attachment_stats(self.unit)
         name = _opname(op)
         self.classes.add(f'op:{op["op"]}:{op["via"]}')
@@ -534,6 +662,7 @@ class Runner:
         stage = ['attach']
         pending = None
         try:
+            self.version += 1
             if op['via'] == 'fn':
                 self.fn_attach(op)
                 try:
@@ -541,6 +670,7 @@ class Runner:
                     self.inside(op, depth, stats0)
                 finally:
                     stage[0] = 'detach'
+                    self.version += 1
                     self.fn_detach(op)
             else:
                 with self.manager(op):
@@ -549,6 +679,7 @@ class Runner:
                         self.inside(op, depth, stats0)
                     finally:
                         stage[0] = 'detach'
+                        self.version += 1
             stage[0] = 'done'
         except BodyError as e:
             pending = e
@@ -584,9 +715,10 @@ class Runner:
     def run_flat(self, steps):
         ops = {}
         order = []
-        before = Snap(self.unit)
+        before = self.snap()
         lifo = True
         for st_ in steps:
+            self.version += 1
             if st_[0] == 'attach':
                 _, n, op = st_
                 ops[n] = op
@@ -665,31 +797,41 @@ def check_case(case, ctx):
         classes.add(f'total-{k}:' + ('0' if v == 0 else '1-3' if v <= 3 else '4+'))
     ctx.case(case, r.nontrivial, sorted(classes))
     ctx.count('checkpoints-compared', r.checks)
-    if case['dom'] == 'tree' and case.get('filled_empty_branches'):
-        ctx.exclude('empty CASE/WHERE branch body (generic Transformer strips it: listed C14 finding)',
-                    case['filled_empty_branches'])
+    for reason in case.get('excluded', ()):
+        ctx.exclude(reason)
 
 
 def run_shard(ctx):
-    par, syn = parsed_cases(), synthetic_cases()
-    total_p, total_s = ctx.scale(1600, 40000), ctx.scale(1600, 100000)
+    trig = known_triggers()
+    for k, v in trig.items():
+        ctx.note(f'listed root cause {k}: ' + ('still reproduces -> trigger excluded by construction' if v
+                                                else 'no longer reproduces -> trigger generated'))
+    par, syn = parsed_cases(trig), synthetic_cases(trig)
+    total_p, total_s = ctx.scale(960, 40000), ctx.scale(1600, 100000)
     k = 0
     while (total_p > 0 or total_s > 0) and not ctx.out_of_time():
         if total_p > 0:
-            ctx.given(par, check_case, min(50, total_p), label=f'par-{k}')
-            total_p -= 50
+            ctx.given(par, check_case, min(20, total_p), label=f'par-{k}')
+            total_p -= 20
         if total_s > 0 and not ctx.out_of_time():
-            ctx.given(syn, check_case, min(50, total_s), label=f'syn-{k}')
-            total_s -= 50
+            ctx.given(syn, check_case, min(40, total_s), label=f'syn-{k}')
+            total_s -= 40
         k += 1
-    ctx.sample({'kind': 'history (nested)', 'meaning': 'with pragma_regions_attached(r): with pragmas_attached(r, Loop): '
-                'attach_dataflow_analysis(r); try: raise; finally: detach_dataflow_analysis(r)  -> compared after each exit',
-                'hist': {'mode': 'nested', 'ops': [{'op': 'regions', 'keyword': None, 'via': 'ctx', 'raises': None, 'body': [
-                    {'op': 'pragmas', 'types': ['Loop'], 'post': True, 'via': 'ctx', 'raises': None, 'body': [
-                        {'op': 'dfa', 'via': 'fn', 'raises': 1, 'body': [{'op': 'query'}]}]}]}]}})
-    ctx.sample({'kind': 'parsed unit (excerpt)', 'src_excerpt':
-                '  !$loki data\n  !$acc loop vector\n  do i = 1, n\n    a(i) = b(i, 1) + x\n    !$loki end data\n  end do\n'
-                '  !$omp simd\n  !$loki end x\n  call ext_sub(a, n)\n  !$loki some-pragma vars(x, y)'})
+    if ctx.shard == 0:
+        ctx.sample({'kind': 'history (nested)', 'meaning': 'with pragma_regions_attached(r): with pragmas_attached(r, Loop): '
+                    'attach_dataflow_analysis(r); try: <query>; raise; finally: detach_dataflow_analysis(r); the exception is '
+                    'caught one context further out; tree compared with the entry snapshot after each of the three exits',
+                    'hist': {'mode': 'nested', 'ops': [{'op': 'regions', 'keyword': None, 'via': 'ctx', 'raises': None, 'body': [
+                        {'op': 'pragmas', 'types': ['Loop'], 'post': True, 'via': 'ctx', 'raises': None, 'body': [
+                            {'op': 'dfa', 'via': 'fn', 'raises': 1, 'body': [{'op': 'query'}]}]}]}]}})
+        ctx.sample({'kind': 'history (flat, non-LIFO)', 'hist': {'mode': 'flat', 'steps': [
+            ['attach', 0, {'op': 'regions', 'keyword': 'loki'}], ['attach', 1, {'op': 'pragmas', 'types': ['CallStatement', 'Loop'], 'post': True}],
+            ['detach', 0], ['attach', 2, {'op': 'dfa'}], ['detach', 1], ['detach', 2]]}})
+        ctx.sample({'kind': 'parsed unit (excerpt of a generated body)', 'src_excerpt':
+                    '  !$loki data\n  !$acc loop vector\n  do i = 1, n\n    a(i) = b(i, 1) + x\n    !$loki end data\n  end do\n'
+                    '  !$omp simd\n  !$loki end x\n  call ext_sub(a, n)\n  !$loki some-pragma vars(x, y)'})
+        ctx.sample({'kind': 'synthetic tree', 'meaning': 'Subroutine(spec=[!$loki x, decl], body=[!$loki x, Loop[!$acc y, Assignment, '
+                    '!$loki end x], !$loki x (equal copy), !$loki end x, Conditional[...]]) - pragmas carry no source, equal text = equal nodes'})
 
 
 def replay(case, ctx):
